@@ -773,13 +773,35 @@ def worker_run(task: Dict[str, Any]) -> Dict[str, Any]:
 
 TIERS = {
     # runs, determinism re-run sample, wall budget (s) for the main sweep
-    "quick": {"runs": 1000, "det": 64, "budget": 120.0, "extras": 60},
-    "thorough": {"runs": 40000, "det": 600, "budget": 2400.0, "extras": 400},
+    "quick": {"runs": 1000, "det": 64, "budget": 120.0, "extras": 60, "sweep": 160},
+    "thorough": {"runs": 40000, "det": 600, "budget": 2400.0, "extras": 400, "sweep": 10**9},
 }
 
 
 def _sigs(res: Dict[str, Any]) -> List[str]:
     return sorted({v["sig"] for v in res.get("violations", [])})
+
+
+def sweep_tasks(seed: int, points: int) -> Tuple[List[Dict[str, Any]], Dict[str, Any]]:
+    """Systematic part: two threads make their first get_converter() call and use the converter;
+    thread 0 is pre-empted exactly once, after k of its steps, for k on an even grid over its whole
+    script (every line of forward-reference resolution and hook registration is a step), thread 1 then
+    runs to completion, thread 0 resumes.  This is the window of defect F1 enumerated rather than
+    sampled; the mirrored schedule (thread 1 first) is the same by symmetry of the scripts."""
+    names = {nm: i for i, (nm, _t, _j) in enumerate(battery.STRUCT)}
+    ka, kb = names.get("caps-decl-reg", 0), names.get("publish-diags", 1)
+    base = {"shape": "sweep1", "n": 2, "threads": [[["GET", 0, "fresh", None], ["USE", 0, ka]], [["GET", 0, "fresh", None], ["USE", 0, kb]]],
+            "shared_dv": [], "shared_custom": [], "start_after": [0, 0], "buggify": [], "sched_seed": 1}
+    cal = dict(base, run_seed=core.derive(seed, PROP, "sweep-cal"), policy={"kind": "trace", "trace": [[0, 10**9], [1, 10**9]]})
+    res = worker_run(cal)
+    if res.get("harness") or not res.get("decisions"):
+        raise core.HarnessError(f"sweep calibration failed: {res.get('harness')}")
+    t0_steps = res["decisions"][0][1]
+    stride = max(1, t0_steps // max(1, points))
+    tasks = []
+    for k in range(0, t0_steps + 1, stride):
+        tasks.append(dict(base, run_seed=core.derive(seed, PROP, "sweep", k), policy={"kind": "trace", "trace": [[0, k], [1, 10**9], [0, 10**9]]}, sweep_k=k))
+    return tasks, {"thread0_steps": t0_steps, "stride": stride, "points": len(tasks)}
 
 
 def _run_local(run: Dict[str, Any]) -> Dict[str, Any]:
@@ -963,6 +985,12 @@ def main(argv: List[str]) -> int:
             + (f" ({extras_note})" if extras_note else "") + f", {len(battery.BUILD)} constructor recipes")
     run_seeds = [core.derive(seed, PROP, i) for i in range(cfg["runs"])]
     t_start = time.monotonic()
+    sweep: List[Dict[str, Any]] = []
+    sweep_info: Dict[str, Any] = {}
+    try:
+        sweep, sweep_info = sweep_tasks(seed, cfg["sweep"])
+    except core.HarnessError as e:
+        rep.harness_error(str(e))
     deadline = t_start + cfg["budget"]
     first_fail: Dict[str, Tuple[Dict[str, Any], Dict[str, Any]]] = {}
     results: List[Dict[str, Any]] = []
@@ -975,6 +1003,11 @@ def main(argv: List[str]) -> int:
 
     def gen_and_remember():
         for t in tasks_iter():
+            task_by_seed[t["run_seed"]] = t
+            yield t
+
+    def gen_sweep():
+        for t in sweep:
             task_by_seed[t["run_seed"]] = t
             yield t
 
@@ -991,7 +1024,10 @@ def main(argv: List[str]) -> int:
         return len(unknown) >= 4
 
     try:
-        core.run_pool(worker_run, gen_and_remember(), on_result=on_result, deadline=deadline, per_task_timeout=240.0)
+        # systematic single-pre-emption sweep first (always completes), then the seeded search under the budget
+        core.run_pool(worker_run, gen_sweep(), on_result=on_result, per_task_timeout=240.0)
+        if len([s_ for s_ in first_fail if rep.kf.match(PROP, s_) is None]) < 4 and len(rep.harness_errors) < 3:
+            core.run_pool(worker_run, gen_and_remember(), on_result=on_result, deadline=time.monotonic() + cfg["budget"], per_task_timeout=240.0)
     except core.HarnessError as e:
         rep.harness_error(str(e))
 
@@ -1121,6 +1157,7 @@ def main(argv: List[str]) -> int:
         "shapes": shapes,
         "policies": pols,
         "distinct_interleavings": distinct,
+        "systematic_single_preemption_sweep": dict(sweep_info, runs=sum(1 for r in ok_results if r.get("shape") == "sweep1")),
         "switch_site_lines_in__hooks_py": len(hooks_lines),
         "determinism": {"rerun_other_worker_count": det_checked, "fresh_interpreter_other_hashseed": fresh_checked, "mismatches": det_mismatch},
         "real_vs_stub": {
